@@ -85,6 +85,17 @@ def run_chunks(worker, tasks, quick, nproc=None):
         return [worker(t) for t in tasks]
 
 
+def account(rep, name, cases, keys=(), samples=()):
+    """book the cases executed by a chunk (possibly in a worker process) on a bounded driver: same effect as calling
+    rep.bounded_case once per case."""
+    d = rep.bounded[name]
+    d['evaluations'] += cases
+    d['nontrivial'] |= set(keys)
+    for s in samples:
+        if len(d['samples']) < 3:
+            d['samples'].append(s)
+
+
 # ---------------------------------------------------------------------------------------------
 # raw state handling of the real Circuit (no repository algorithm involved)
 
